@@ -28,7 +28,7 @@ const (
 //	tup                      Ts, HasSize, Lo Hi (when HasSize)
 //	struct                   Ms
 //	var                      Ts
-//	opt nu type sens iter alias   Ts[0]
+//	opt nu type sens iter itr alias   Ts[0]
 //	obj                      Path
 type Ty struct {
 	K        string
@@ -128,6 +128,7 @@ func NU(t Ty) Ty                             { return Wrap1("nu", t) }
 func TypeOf(t Ty) Ty                         { return Wrap1("type", t) }
 func Sens(t Ty) Ty                           { return Wrap1("sens", t) }
 func Iter(t Ty) Ty                           { return Wrap1("iter", t) }
+func Itr(t Ty) Ty                            { return Wrap1("itr", t) }
 func Alias(t Ty) Ty                          { return Wrap1("alias", t) }
 func Obj(path ...int64) Ty                   { return Ty{K: "obj", Path: path} }
 func Mem(name string, opt bool, t Ty) Member { return Member{Name: name, Opt: opt, T: t} }
@@ -243,7 +244,7 @@ func (t Ty) Sexp() sx.Sexp {
 		return sx.T("struct", ms...)
 	case "var":
 		return sx.T("var", tysSexp(t.Ts)...)
-	case "opt", "nu", "type", "sens", "iter", "alias":
+	case "opt", "nu", "type", "sens", "iter", "itr", "alias":
 		return sx.T(t.K, t.Ts[0].Sexp())
 	case "obj":
 		return sx.T("obj", intsSexp(t.Path)...)
@@ -535,7 +536,7 @@ func ParseTy(e sx.Sexp) (Ty, error) {
 	case "var":
 		ts, err := parseTys(a)
 		return Ty{K: tag, Ts: ts}, err
-	case "opt", "nu", "type", "sens", "iter", "alias":
+	case "opt", "nu", "type", "sens", "iter", "itr", "alias":
 		if err = arity(e, 1); err != nil {
 			return Ty{}, err
 		}
